@@ -6,6 +6,7 @@ mod fam_e2e;
 mod fam_c04;
 mod fam_c11;
 mod fam_c06;
+mod fam_hist;
 
 fn main() {
     let args: Vec<String> = std::env::args().collect();
@@ -23,6 +24,7 @@ fn main() {
         "c04" => fam_c04::run(seed, thorough),
         "c11" => fam_c11::run(seed, thorough),
         "c06" => fam_c06::run(seed, thorough),
+        "hist" => fam_hist::run(seed, thorough),
         other => {
             eprintln!("unknown family {}", other);
             std::process::exit(2);
